@@ -242,6 +242,12 @@ fn classify(e: &PublishError) -> &'static str {
 }
 
 async fn do_pub<P: MetricPublisher>(p: &P, mode: &str, ms: Vec<PublishMetric>) -> Result<(), PublishError> {
+    // a one-metric publish in the unsorted modes goes through the single-metric entry points, so that
+    // all six publish entry points of `MetricPublisher` are exercised
+    if ms.len() == 1 && (mode == "try" || mode == "blk") {
+        let m = ms.into_iter().next().unwrap();
+        return if mode == "try" { p.try_publish_metric(m).await } else { p.publish_metric(m).await };
+    }
     match mode {
         "try" => p.try_publish_metrics_unsorted(ms).await,
         "blk" => p.publish_metrics_unsorted(ms).await,
